@@ -16,6 +16,7 @@ import (
 	"google.golang.org/grpc/metadata"
 	"google.golang.org/grpc/stats"
 	"google.golang.org/grpc/status"
+	"google.golang.org/protobuf/protoadapt"
 	"google.golang.org/protobuf/types/known/wrapperspb"
 	"pgregory.net/rapid"
 	"verifharness/kit"
@@ -181,6 +182,21 @@ func (s sendTagStream) SendMsg(m any) error {
 }
 
 // altTag is the suffix of the method RPC n calls.
+// c20WithDetail: the status an "err" interceptor returns carries the details of the one it replaces plus one of its own.
+func c20WithDetail(n, old *status.Status, i int) error {
+	var ds []protoadapt.MessageV1
+	for _, d := range old.Details() {
+		if m, ok := d.(protoadapt.MessageV1); ok {
+			ds = append(ds, m)
+		}
+	}
+	ds = append(ds, protoadapt.MessageV1Of(wrapperspb.String(fmt.Sprintf("detail-of-s%d", i))))
+	if w, err := n.WithDetails(ds...); err == nil {
+		return w.Err()
+	}
+	return n.Err()
+}
+
 func (c C20Case) altTag(n int) string {
 	if n < len(c.Alt) && c.Alt[n] {
 		return "2"
@@ -266,7 +282,7 @@ func execC20(t *testing.T, c C20Case) (v Verdict) {
 				}
 				if tr == "err" && err != nil {
 					st, _ := status.FromError(err)
-					err = status.Error(st.Code(), st.Message()+fmt.Sprintf("|s%d", i))
+					err = c20WithDetail(status.New(st.Code(), st.Message()+fmt.Sprintf("|s%d", i)), st, i)
 				}
 				return resp, err
 			})
@@ -288,7 +304,7 @@ func execC20(t *testing.T, c C20Case) (v Verdict) {
 				err := h(srv, ss)
 				if tr == "err" && err != nil {
 					st, _ := status.FromError(err)
-					err = status.Error(st.Code(), st.Message()+fmt.Sprintf("|s%d", i))
+					err = c20WithDetail(status.New(st.Code(), st.Message()+fmt.Sprintf("|s%d", i)), st, i)
 				}
 				return err
 			})
@@ -640,6 +656,24 @@ func execC20(t *testing.T, c C20Case) (v Verdict) {
 			st, _ := status.FromError(results[n].err)
 			if results[n].err == nil || st.Code() != codes.NotFound || st.Message() != wantMsg {
 				v.failf("rpc %d: caller got error %v, the chain maps the handler's error to NotFound %q", n, results[n].err, wantMsg)
+			} else {
+				// every "err" interceptor added one detail, innermost first
+				var wantD, gotD []string
+				for i := len(c.Server) - 1; i >= 0; i-- {
+					if c.Server[i] == "err" {
+						wantD = append(wantD, fmt.Sprintf("detail-of-s%d", i))
+					}
+				}
+				for _, d := range st.Details() {
+					if sv, ok := d.(*wrapperspb.StringValue); ok {
+						gotD = append(gotD, sv.GetValue())
+					} else {
+						gotD = append(gotD, fmt.Sprintf("%T", d))
+					}
+				}
+				if strings.Join(gotD, ",") != strings.Join(wantD, ",") {
+					v.failf("rpc %d: the status the caller got carries details %v, the interceptor chain produced %v", n, gotD, wantD)
+				}
 			}
 		}
 	}
